@@ -202,6 +202,25 @@ def result_to_dict(r):
     return {k: v for k, v in r.__dict__.items()}
 
 
+class FrameView(dict):
+    """the variables of a fragment's frame as its post-condition sees them: asking (without a default) for a local the code
+    does not define - the contract was written for a local of that name, the code at hand calls it otherwise - leaves the
+    task undecided instead of handing None to the post-condition"""
+    _MISSING = object()
+
+    def get(self, k, default=_MISSING):
+        if k in self:
+            return dict.get(self, k)
+        if default is FrameView._MISSING:
+            raise Unsupported(f"the fragment does not define a local '{k}' (renamed or restructured code)")
+        return default
+
+    def __getitem__(self, k):
+        if k not in self:
+            raise Unsupported(f"the fragment does not define a local '{k}' (renamed or restructured code)")
+        return dict.__getitem__(self, k)
+
+
 class FragmentTask(Task):
     """Executes a mechanically extracted FRAGMENT of a function: the consecutive statements of `qual` (at nesting
     level `path`) from the first one for which first(stmt) holds to the last one for which last(stmt) holds.  What is
@@ -313,4 +332,4 @@ class FragmentTask(Task):
             raise
         finally:
             ex.call_depth -= 1
-        return dict(fr.vars)
+        return FrameView(fr.vars)
